@@ -172,7 +172,9 @@ func (m *Model) changeActiveMode(id string) (*traits.ElectricMode, error) {
 		return nil, ErrModeNotFound
 	}
 
-	updated, err := m.activeMode.Set(mode, resource.InterceptAfter(func(old, new proto.Message) {
+	// mode is the stored message itself, which readers and subscribers of the modes hold too; a write filters its
+	// source in place when the active mode resource has writable fields, so the write is handed a copy
+	updated, err := m.activeMode.Set(proto.Clone(mode), resource.InterceptAfter(func(old, new proto.Message) {
 		oldMode := old.(*traits.ElectricMode)
 		newMode := new.(*traits.ElectricMode)
 		if oldMode.Id != newMode.Id {
